@@ -65,6 +65,8 @@ def run(F, R):
     # Z9: the command queues run in the negotiated modes (C08.H3)
     from .C08 import queue_modes_rule
     queue_modes_rule(F, R, M, 'Z9', ['device::gpu', 'device::sound', 'device::rng', 'device::rtc', 'device::virtio_9p'])
+    # Z10: returned values equal what the device reported: integer -> enum decoding tables agree with the enums' codes
+    decode_tables_rule(F, R, 'Z10', ['device::'])
 
 
 def z1_encodings(F, R):
